@@ -493,6 +493,11 @@ class World(Domain):
         if isinstance(x, (SymInt, SymBool)):
             return True, SymStr([x])
         if isinstance(x, AObj):
+            if x.cls in self.repo.classes and not self.is_node(x):
+                for nm in ("__str__", "__repr__"):
+                    q, f = self.repo.find_method(x.cls, nm)
+                    if f is not None:
+                        return True, it.call(it.getattr(x, nm), [])
             return True, SymStr([x])
         if isinstance(x, SymStr):
             return True, x
